@@ -527,9 +527,12 @@ pub fn generate(a: &Args) -> Vec<Vec<String>> {
             if regs.is_empty() && (81..=94).contains(&roll) {
                 roll = 75;
             }
+            let free: Vec<u64> = (0..nlabels).filter(|x| !live.contains(x)).collect();
+            if roll <= 33 && free.is_empty() && rng.chance(85) {
+                roll = 50; // every label is in use: release one instead
+            }
             let l = match roll {
                 0..=33 => {
-                    let free: Vec<u64> = (0..nlabels).filter(|x| !live.contains(x)).collect();
                     let label = if free.is_empty() || rng.chance(6) { any_label } else { *rng.pick(&free) };
                     let size = match rng.below(100) {
                         0..=2 => 0,
